@@ -217,9 +217,7 @@ def predicate_probes(ctx, env, decl, state, label, payload_fn):
     def mk(grid=None, pos=None, ori=None, held=None):
         g = grid if grid is not None else state.grid
         a = Agent(pos if pos is not None else state.agent.position,
-                  state.agent.orientation, held if held is not None else state.agent.grid_object)
-        if ori is not None:
-            a.transform.orientation = ori
+                  ori if ori is not None else state.agent.orientation, held if held is not None else state.agent.grid_object)
         return State(g, a)
 
     probes.append(('extra_row', mk(grid=Grid([list(r) for r in state.grid.objects] + [list(state.grid.objects[0])]))))
